@@ -216,8 +216,13 @@ def analyse_measure_like(prog, m, amp, q, sp, KS, KP):
             raise PartialSweep('%s: the cells of qubit %s are selected with mask %s, which is not 1 << %s' % (m.short, q['name'], cand, q['name']), m.ln)
     if len(loops) < 2:
         raise AnalysisBroken('%s: expected an accumulation loop and a collapse loop' % m.short)
-    l1 = KP.full_state_loop(loops[0], amp)
-    l2 = KP.full_state_loop(loops[-1], amp)
+    aliases = KP.size_aliases(m.body, amp)
+    sw1 = KP.state_sweep(loops[0], amp, bit_ids, aliases)
+    sw2 = KP.state_sweep(loops[-1], amp, bit_ids, aliases)
+    if sw1 is not None and sw1[0] != 'flat':
+        raise AnalysisBroken('%s: a blocked accumulation sweep is not recognised' % m.short)
+    l1 = (sw1[1], sw1[2]) if sw1 else None
+    l2 = sw2
     if l1 is None or l2 is None:
         why = [KP.partial_state_loop(l, amp) for l, x in ((loops[0], l1), (loops[-1], l2)) if x is None]
         if all(why):
@@ -264,14 +269,21 @@ def analyse_measure_like(prog, m, amp, q, sp, KS, KP):
     for res in (0, 1):
         scal = {p1_id: p1}
         cases = {res_id: res} if res_id else {}
-        it = KP.PairIter(amp, l2[0]['id'], bit_ids, scal, cases)
+        it = KP.PairIter(amp, l2[1]['id'] if l2[0] == 'flat' else None, bit_ids, scal, cases)
         try:
             it.b = 0
             for v in late_doubles:
                 it.scalars[v['id']] = it.amp_expr(v['init'])
-            for b in (0, 1):
-                cells, acc = it.run(l2[1], b)
-                info['collapse'][(b, res)] = cells
+            if l2[0] == 'flat':
+                for b in (0, 1):
+                    cells, acc = it.run(l2[2], b)
+                    info['collapse'][(b, res)] = cells
+            else:
+                # blocked sweep: both cells of a pair are handled in the one visit of its bit-clear index
+                it.zero_vars = set(l2[1])
+                cells, acc = it.run(l2[2], 0)
+                for b in (0, 1):
+                    info['collapse'][(b, res)] = {b: cells[b]} if b in cells else {}
         except (KP.NotPairwise, KS.Unfoldable) as e:
             raise AnalysisBroken('%s collapse loop: %s' % (m.short, e))
     g = prog.cfg(m)
